@@ -433,7 +433,9 @@ func (g *gv) leaf() J {
 // field and key names include names of registered template functions (trim, debug, range, capitalize: a member is not a call) and
 // exported names whose first letter is not ASCII (lower-camel folding is by rune, not by byte)
 var fieldNames = []string{"Name", "Title", "Count", "Items", "Inner", "Value", "ProductID", "URL", "X", "Data", "IsOk", "HTMLBody", "Aa",
-	"Trim", "Debug", "Range", "Capitalize", "Übersicht", "Éditeur", "Ωmega", "Яблоко"}
+	"Trim", "Debug", "Range", "Capitalize", "Übersicht", "Éditeur", "Ωmega", "Яблоко",
+	// fields whose lower-camel name is a JavaScript keyword or reserved word (ES5 allows every IdentifierName after a dot)
+	"Default", "New", "For", "In", "Delete", "Case", "Continue", "This", "Typeof", "Class", "Return", "Null", "True"}
 var mapKeys = []string{"key", "name", "a", "other", "Upper", "with space", "id", "x1", "é", "trim", "debug", "capitalize", "range", "truncate"}
 
 func (g *gv) val(depth int) J {
@@ -672,7 +674,10 @@ func genC11(r *Rng, n int, tier string, emit func(Case)) {
 		if first, ok := p[0].(J); ok && (d["k"] == "struct" || d["k"] == "map") && g.r.Chance(1, 3) {
 			// (a top-level key named like a registered template function is that function in the template: not a data path)
 			isFunc := map[string]bool{"trim": true, "debug": true, "range": true, "capitalize": true, "truncate": true, "json": true, "x": false}
-			if f, ok := first["f"].(string); ok && isIdent(f) && f != "missing" && f != "noSuchField" && !isFunc[f] {
+			// (and a top-level key that is a JavaScript keyword cannot be written as a bare variable at all)
+			isKw := map[string]bool{"default": true, "new": true, "for": true, "in": true, "delete": true, "case": true, "continue": true, "this": true,
+				"typeof": true, "class": true, "return": true, "null": true, "true": true}
+			if f, ok := first["f"].(string); ok && isIdent(f) && f != "missing" && f != "noSuchField" && !isFunc[f] && !isKw[f] {
 				c["root"] = true
 				c["bucket"] = c["bucket"].(string) + "/root"
 			}
